@@ -197,5 +197,12 @@ FpKnownKey(e) ==
          e.op \in {"fp_exp", "fp_exp_slide"} /\ BBits(BNorm(e.e.d)) > e.fbits + 1
                 /\ e.err # 0 /\ e.code = 1 /\ e.unch
             -> "C02-exp-slide-exponent-capacity"
+         \* fp_crt(c, a) with c == a when p = 1 (mod 9): the general branch writes its running
+         \* value into c before the last reads of a; a root is announced but c^3 # a
+      [] e.op = "fp_crt" /\ e.al = 1 /\ BMod(P(e), <<9>>) = <<1>>
+                /\ A(e) # <<>> /\ FIsCube(A(e), P(e))
+                /\ e.ret = 1 /\ e.err = 0 /\ e.code = 0 /\ FCanon(e, e.c)
+                /\ ~FIsCbrtOf(FAbs(e, e.c), A(e), P(e))
+            -> "C02-crt-alias-p1mod9"
       [] OTHER -> ""
 =============================================================================
